@@ -229,6 +229,18 @@ class Reg:
         self.inst("W2", q)
         self.inst("Qlen", q)
 
+    def touch(self, *names):
+        """instantiate the invariants for names that enter a function as arguments (a name may be a
+        unit, a category or a quantity type)"""
+        for n in names:
+            self.inst("W1a", n)
+            self.inst("F1", n)
+            self.inst("F1", fixf(n))
+            self.inst("W1a", fixf(n))
+            self.inst("W3", n)
+            self.inst("W2", n)
+            self.inst("Qlen", n)
+
     def set(self, field, value, what):
         setattr(self, field, value)
         self.writes.append((field, what))
